@@ -514,7 +514,13 @@ pub fn child_main(args: &[String]) -> i32 {
             return 2;
         },
     };
-    let x = run_execution(bodies, &prefix, false, Some(crate::fg::intern_handle()));
+    let mut x = run_execution(bodies, &prefix, false, Some(crate::fg::intern_handle()));
+    if !x.deadlock && x.diverged.is_none() {
+        // probe calls after the race, sequentially on the main thread (unmanaged)
+        for probe in crate::props::c18::child_probes(name) {
+            x.results.push(std::panic::catch_unwind(std::panic::AssertUnwindSafe(probe)).map_err(|_| "probe panicked".to_string()));
+        }
+    }
     let out = serde_json::to_string(&x.to_json()).unwrap();
     let mut o = std::io::stdout();
     let _ = writeln!(o, "{}", out);
@@ -575,14 +581,14 @@ pub fn explore_first_use(rep: &mut Report, id: &str, bound: usize, thorough: boo
             |x| {
                 for (t, r) in x.results.iter().enumerate() {
                     match r {
-                        Err(p) => return Err(format!("thread {} panicked: {}", t, p)),
+                        Err(p) => return Err(format!("call {} panicked: {}", t, p)),
                         Ok(bytes) => {
-                            if Some(bytes) != base_results[t].as_ref().ok() {
-                                return Err(format!("thread {} result differs from the sequential baseline", t));
+                            if Some(bytes) != base_results.get(t).and_then(|r| r.as_ref().ok()) {
+                                return Err(format!("call {} (racing threads first, then the probe calls) differs from the sequential baseline", t));
                             }
                             if let Some(e) = expect.get(t).and_then(|e| e.as_ref()) {
                                 if e != bytes {
-                                    return Err(format!("thread {} result differs from the reference derivation", t));
+                                    return Err(format!("call {} (racing threads first, then the probe calls) differs from the reference derivation", t));
                                 }
                             }
                         },
